@@ -32,6 +32,13 @@ EXHAUSTIVE_SUBSPACES = {
                  "all 2^12 loop-free digraphs on 4 classes", "all digraphs on 1 and 2 classes"],
 }
 
+ANCHORS = [
+    "statham.serializers.orderer:orderer",
+    "statham.serializers.orderer:get_children",
+    "statham.serializers.orderer:_get_path",
+    "statham.serializers.orderer:get_object_classes",
+]
+
 
 def plan(tier):
     if tier == "quick":
